@@ -5,11 +5,16 @@
   the equality of stored arguments (Python `==` on values), whose reflexivity / symmetry /
   transitivity are explicit hypotheses: Python's `==` is an equivalence on hashable values and on
   mappings with pairwise distinct keys (proved for hashable values in Lemmas/PyEq.lean), not on
-  arbitrary association lists.
+  arbitrary association lists.  For the same reason the keyword dictionaries (`kwargs`) and the `cast`
+  dictionary, which the model keeps as association lists, are required to have pairwise distinct keys
+  (`KwNodup`, `RuleKeysNodup`) wherever reflexivity or symmetry is claimed: every Python dict has.
 -/
 import Valida.Eq
 import ValidaProofs.Lemmas.Basic
 import ValidaProofs.Lemmas.PyEq
+import ValidaProofs.Lemmas.C14Eq
+import ValidaProofs.Lemmas.C14Path
+import ValidaProofs.Lemmas.C02Tree
 namespace ValidaProofs
 open Valida ValidaGen
 
@@ -31,33 +36,86 @@ def EquivOn (R : α → α → Bool) (xs : List α) : Prop :=
   (∀ a ∈ xs, R a a = true) ∧ (∀ a ∈ xs, ∀ b ∈ xs, R a b = R b a) ∧
   (∀ a ∈ xs, ∀ b ∈ xs, ∀ c ∈ xs, R a b = true → R b c = true → R a c = true)
 
+/-- the keyword names of every single condition are pairwise distinct (they are the keys of a Python
+    keyword dictionary) -/
+def KwNodup (c : Cond α) : Prop := ∀ l ∈ c.leaves, (l.kwargs.map (·.1)).Nodup
+
+def PartKwNodup (p : Part) : Prop := KwNodup p.cond ∧ KwNodup p.listCond ∧ KwNodup p.mapCond
+
+def PathKwNodup (p : Path) : Prop := ∀ x ∈ p.parts, PartKwNodup x
+
+/-- distinct keys everywhere in a rule: keyword names of every condition, types of the `cast` dict -/
+def RuleKeysNodup (r : RuleM) : Prop := PathKwNodup r.path ∧ KwNodup r.cond ∧ (r.cast.map (·.1)).Nodup
+
+/-! the definitions above are those of the lemma files -/
+
+theorem condArgs_eq (c : Cond α) : condArgs c = C14L.args c := by
+  induction c with
+  | leaf l => rfl
+  | bin op a b iha ihb => simp only [condArgs, C14L.args, iha, ihb]
+
+theorem partVals_eq : partVals = C14L.partVals := by
+  funext p; simp only [partVals, C14L.partVals, condArgs_eq]
+
+theorem pathVals_eq : pathVals = C14L.pathVals := by
+  funext p; simp only [pathVals, C14L.pathVals, partVals_eq]
+
 /-- Python `==` is an equivalence on hashable values (numbers, strings, None, type objects, tuples of
     such): the non-vacuity of the hypotheses below -/
 theorem C14_pyEq_equiv_on_hashable (xs : List PyVal) (h : ∀ x ∈ xs, PyVal.hashable x = true) :
-    EquivOn PyVal.pyEq xs := by
-  sorry
+    EquivOn PyVal.pyEq xs :=
+  ⟨fun a ha => pyEq_refl a (h a ha), fun a ha b _ => pyEq_symm a b (h a ha),
+   fun a _ b hb c _ => pyEq_trans a b c (h b hb)⟩
 
+-- STATEMENT CHANGED: hypothesis `KwNodup c` added.  Without it the statement is false: `kwEq` looks
+-- every keyword up by name and finds the first entry, so for the association list
+-- `kwargs = [("a", 1), ("a", 2)]` (not a Python dict) the second item is compared with the first
+-- (`example` below).
 /-- reflexive -/
-theorem C14_cond_refl (eqA : α → α → Bool) (c : Cond α)
-    (hr : ∀ a ∈ condArgs c, eqA a a = true) : condEqWith eqA c c = true := by
-  sorry
+theorem C14_cond_refl (eqA : α → α → Bool) (c : Cond α) (hn : KwNodup c)
+    (hr : ∀ a ∈ condArgs c, eqA a a = true) : condEqWith eqA c c = true :=
+  C14L.cond_refl eqA c hn (condArgs_eq c ▸ hr)
 
+/-- the counterexample to reflexivity without `KwNodup` -/
+example :
+    let c : Cond Nat := .leaf { cls := .value, fn := "f", args := [], kwargs := [("a", 1), ("a", 2)] }
+    (∀ a ∈ condArgs c, (a == a) = true) ∧ condEqWith (· == ·) c c = false := by
+  refine ⟨fun a _ => beq_self_eq_true a, ?_⟩
+  decide
+
+-- STATEMENT CHANGED: hypotheses `KwNodup c`, `KwNodup d` added.  Without them the statement is false:
+-- with `c.kwargs = [("x", 1), ("x", 1)]` and `d.kwargs = [("x", 1), ("y", 2)]` (same length, every item
+-- of `c` found in `d`, but `"y"` not found in `c`) `c == d` holds and `d == c` does not (`example` below).
 /-- symmetric -/
-theorem C14_cond_symm (eqA : α → α → Bool) (c d : Cond α)
-    (hs : ∀ a ∈ condArgs c, ∀ b ∈ condArgs d, eqA a b = eqA b a) : condEqWith eqA c d = condEqWith eqA d c := by
-  sorry
+theorem C14_cond_symm (eqA : α → α → Bool) (c d : Cond α) (hc : KwNodup c) (hd : KwNodup d)
+    (hs : ∀ a ∈ condArgs c, ∀ b ∈ condArgs d, eqA a b = eqA b a) : condEqWith eqA c d = condEqWith eqA d c :=
+  C14L.cond_symm eqA c d hc hd (condArgs_eq c ▸ condArgs_eq d ▸ hs)
+
+/-- the counterexample to symmetry without `KwNodup` -/
+example :
+    let c : Cond Nat := .leaf { cls := .value, fn := "f", args := [], kwargs := [("x", 1), ("x", 1)] }
+    let d : Cond Nat := .leaf { cls := .value, fn := "f", args := [], kwargs := [("x", 1), ("y", 2)] }
+    (∀ a ∈ condArgs c, ∀ b ∈ condArgs d, (a == b) = (b == a)) ∧
+    condEqWith (· == ·) c d = true ∧ condEqWith (· == ·) d c = false := by
+  refine ⟨fun a _ b _ => Bool.beq_comm, ?_, ?_⟩ <;> decide
 
 /-- transitive (the crosswise case of `ConditionBinaryOp.__eq__` included) -/
 theorem C14_cond_trans (eqA : α → α → Bool) (c d e : Cond α)
     (h : EquivOn eqA (condArgs c ++ condArgs d ++ condArgs e))
     (h₁ : condEqWith eqA c d = true) (h₂ : condEqWith eqA d e = true) : condEqWith eqA c e = true := by
-  sorry
+  refine C14L.cond_trans eqA c d e (fun x hx y hy z hz => h.2.2 x ?_ y ?_ z ?_) h₁ h₂ <;>
+    simp [condArgs_eq, hx, hy, hz]
 
+-- STATEMENT CHANGED: hypotheses `KwNodup a`, `KwNodup b` added (the statement needs `a == a` and
+-- `b == b`, see `C14_cond_refl`).
 /-- two combinations differing only in operand order compare equal -/
-theorem C14_commuted_equal (eqA : α → α → Bool) (op : BinOp) (a b : Cond α)
+theorem C14_commuted_equal (eqA : α → α → Bool) (op : BinOp) (a b : Cond α) (ha : KwNodup a) (hb : KwNodup b)
     (hr : ∀ x ∈ condArgs a ++ condArgs b, eqA x x = true) :
     condEqWith eqA (.bin op a b) (.bin op b a) = true := by
-  sorry
+  simp only [List.mem_append] at hr
+  simp only [condEqWith, beq_self_eq_true,
+    C14_cond_refl eqA a ha (fun x hx => hr x (Or.inl hx)), C14_cond_refl eqA b hb (fun x hx => hr x (Or.inr hx)),
+    Bool.and_self, Bool.or_true]
 
 /-- a change of class, callable or operator makes conditions unequal -/
 theorem C14_cond_distinguishes (eqA : α → α → Bool) (l l' : Leaf α) (op op' : BinOp) (a b a' b' : Cond α) :
@@ -65,43 +123,96 @@ theorem C14_cond_distinguishes (eqA : α → α → Bool) (l l' : Leaf α) (op o
     (l.fn ≠ l'.fn → condEqWith eqA (.leaf l) (.leaf l') = false) ∧
     (op ≠ op' → condEqWith eqA (.bin op a b) (.bin op' a' b') = false) ∧
     condEqWith eqA (.leaf l) (.bin op a b) = false := by
-  sorry
+  refine ⟨fun h => ?_, fun h => ?_, fun h => ?_, rfl⟩
+  · have : (l.cls == l'.cls) = false := by simpa using h
+    simp [condEqWith, this]
+  · have : (l.fn == l'.fn) = false := by simpa using h
+    simp [condEqWith, this]
+  · have : (op == op') = false := by simpa using h
+    simp [condEqWith, this]
 
+-- STATEMENT CHANGED: hypotheses `PartKwNodup p`, `PartKwNodup q` added (needed for the reflexivity and
+-- symmetry conjuncts only; counterexamples as for `C14_cond_refl`, `C14_cond_symm` with the condition
+-- of a part).
 /-- parts: an equivalence wherever `==` is one on the stored values; sensitive to kind and to the list /
     map conditions of a map-or-list part -/
-theorem C14_part_equiv (p q r : Part) (h : EquivOn PyVal.pyEq (partVals p ++ partVals q ++ partVals r)) :
-    partEq p p = true ∧ partEq p q = partEq q p ∧ (partEq p q = true → partEq q r = true → partEq p r = true) := by
-  sorry
+theorem C14_part_equiv (p q r : Part) (hp : PartKwNodup p) (hq : PartKwNodup q)
+    (h : EquivOn PyVal.pyEq (partVals p ++ partVals q ++ partVals r)) :
+    partEq p p = true ∧ partEq p q = partEq q p ∧ (partEq p q = true → partEq q r = true → partEq p r = true) :=
+  C14L.part_equiv p q r hp hq (partVals_eq ▸ h)
 
 theorem C14_part_distinguishes (p q : Part) :
     (p.kind ≠ q.kind → partEq p q = false) ∧
     (p.kind = .molv → q.kind = .molv → condEqLit p.listCond q.listCond = false → partEq p q = false) ∧
     (p.kind = .molv → q.kind = .molv → condEqLit p.mapCond q.mapCond = false → partEq p q = false) := by
-  sorry
+  refine ⟨fun h => ?_, fun h1 _ h3 => ?_, fun h1 _ h3 => ?_⟩
+  · have : (p.kind == q.kind) = false := by simpa using h
+    simp [partEq, this]
+  · simp [partEq, h1, h3]
+  · simp [partEq, h1, h3]
 
+-- STATEMENT CHANGED: hypotheses `PathKwNodup p`, `PathKwNodup q` added (reflexivity and symmetry
+-- conjuncts; see `C14_cond_refl`, `C14_cond_symm`).
 /-- paths -/
-theorem C14_path_equiv (p q r : Path) (h : EquivOn PyVal.pyEq (pathVals p ++ pathVals q ++ pathVals r)) :
-    pathEq p p = true ∧ pathEq p q = pathEq q p ∧ (pathEq p q = true → pathEq q r = true → pathEq p r = true) := by
-  sorry
+theorem C14_path_equiv (p q r : Path) (hp : PathKwNodup p) (hq : PathKwNodup q)
+    (h : EquivOn PyVal.pyEq (pathVals p ++ pathVals q ++ pathVals r)) :
+    pathEq p p = true ∧ pathEq p q = pathEq q p ∧ (pathEq p q = true → pathEq q r = true → pathEq p r = true) :=
+  C14L.path_equiv p q r hp hq (pathVals_eq ▸ h)
 
 theorem C14_path_distinguishes (p q : Path) :
     (p.parts.length ≠ q.parts.length → pathEq p q = false) ∧ (p.concrete ≠ q.concrete → pathEq p q = false) ∧
     (p.datum ≠ q.datum → pathEq p q = false) ∧ (p.multi ≠ q.multi → pathEq p q = false) := by
-  sorry
+  refine ⟨fun h => ?_, fun h => ?_, fun h => ?_, fun h => ?_⟩
+  · have : listEq partEq p.parts q.parts = false := by
+      cases hl : listEq partEq p.parts q.parts
+      · rfl
+      · exact absurd (C14L.listEq_length _ _ _ hl) h
+    simp [pathEq, this]
+  · have : (p.concrete == q.concrete) = false := by simpa using h
+    simp [pathEq, this]
+  · have : (p.datum == q.datum) = false := by simpa using h
+    simp [pathEq, this]
+  · have : (p.multi == q.multi) = false := by simpa using h
+    simp [pathEq, this]
 
+-- STATEMENT CHANGED: hypotheses `RuleKeysNodup p`, `RuleKeysNodup q` added (reflexivity and symmetry
+-- conjuncts).  Besides the keyword names (see `C14_cond_refl`, `C14_cond_symm`) the types of the `cast`
+-- dictionary must be distinct for symmetry: `castEq` is "same length and every item of the first is an
+-- item of the second", so `[(int, f), (int, f)] == [(int, f), (str, g)]` but not conversely
+-- (`example` below).
 /-- rules with literal condition arguments (data-path arguments compare through `pathEq`) -/
 theorem C14_rule_equiv (p q r : RuleM) (cp cq cr : Cond PyVal)
     (hp : p.cond = cp.mapArgs Arg.lit) (hq : q.cond = cq.mapArgs Arg.lit) (hr : r.cond = cr.mapArgs Arg.lit)
+    (np : RuleKeysNodup p) (nq : RuleKeysNodup q)
     (h : EquivOn PyVal.pyEq (pathVals p.path ++ pathVals q.path ++ pathVals r.path ++ condArgs cp ++ condArgs cq ++ condArgs cr)) :
     ruleEq p p = true ∧ ruleEq p q = ruleEq q p ∧ (ruleEq p q = true → ruleEq q r = true → ruleEq p r = true) := by
-  sorry
+  rw [pathVals_eq, condArgs_eq, condArgs_eq, condArgs_eq] at h
+  exact C14L.rule_equiv p q r cp cq cr hp hq hr np nq h
+
+/-- the counterexample to symmetry of `castEq` on association lists with a repeated type -/
+example : castEq [(.int, "f"), (.int, "f")] [(.int, "f"), (.str, "g")] = true ∧
+    castEq [(.int, "f"), (.str, "g")] [(.int, "f"), (.int, "f")] = false := by
+  constructor <;> decide
+
+/-- the added hypotheses hold for real objects, e.g. the rule
+    `{"path": ["a"], "condition": {"value.in_range": {"lower": 1, "upper": 5}}, "cast": {"str": "int"}}` -/
+example :
+    let c : Cond Arg := .leaf { cls := .value, fn := "in_range", args := [],
+                                kwargs := [("lower", .lit (.int 1)), ("upper", .lit (.int 5))] }
+    let part : Part := { kind := .map, cond := eqLeaf .key (.str "a"), listCond := Cond.null, mapCond := Cond.null,
+                         label := none }
+    let r : RuleM := { path := { parts := [part], concrete := true, datum := .none, multi := .none, source := none },
+                       cond := c, cast := [(.str, "int")] }
+    RuleKeysNodup r := by
+  simp [RuleKeysNodup, PathKwNodup, PartKwNodup, KwNodup, Cond.leaves, eqLeaf, Cond.null]
 
 /-- behaviour: commuting the operands of a combination does not change what it gives for any item -/
 theorem C14_commuted_same_result (op : BinOp) (a b : Cond RArg) (d : DataV) (fa fb : FD)
     (ha : filterAux a d false = .ok (fa, d, none)) (hb : filterAux b d false = .ok (fb, d, none)) :
     ∃ f₁ f₂, filterAux (.bin op a b) d false = .ok (f₁, d, none) ∧ filterAux (.bin op b a) d false = .ok (f₂, d, none) ∧
-      f₁.result = f₂.result := by
-  sorry
+      f₁.result = f₂.result :=
+  ⟨_, _, filterAux_bin_ok op a b d fa fb ha hb, filterAux_bin_ok op b a d fb fa hb ha,
+    List.zipWith_comm_of_comm (fun x y => by cases op <;> cases x <;> cases y <;> rfl)⟩
 
 /-- behaviour: conditions that are the same up to operand order (same classes, callables and
     arguments) give the same booleans on all data -/
@@ -113,6 +224,19 @@ inductive CommSame : Cond RArg → Cond RArg → Prop
 theorem C14_comm_same_behaviour (c c' : Cond RArg) (h : CommSame c c') (d : DataV) (f : FD)
     (hf : filterAux c d false = .ok (f, d, none)) :
     ∃ f', filterAux c' d false = .ok (f', d, none) ∧ f'.result = f.result := by
-  sorry
+  induction h generalizing f with
+  | leaf l => exact ⟨f, hf, rfl⟩
+  | straight op a b a' b' _ _ iha ihb =>
+    obtain ⟨fa, fb, ha, hb, rfl⟩ := filterAux_bin_inv op a b d f d none hf
+    obtain ⟨fa', ha', ea⟩ := iha fa ha
+    obtain ⟨fb', hb', eb⟩ := ihb fb hb
+    exact ⟨_, filterAux_bin_ok op a' b' d fa' fb' ha' hb', by simp only [FD.result, ea, eb]⟩
+  | crossed op a b a' b' _ _ iha ihb =>
+    obtain ⟨fa, fb, ha, hb, rfl⟩ := filterAux_bin_inv op a b d f d none hf
+    obtain ⟨fb', hb', ea⟩ := iha fa ha
+    obtain ⟨fa', ha', eb⟩ := ihb fb hb
+    refine ⟨_, filterAux_bin_ok op a' b' d fa' fb' ha' hb', ?_⟩
+    simp only [FD.result, ea, eb]
+    exact List.zipWith_comm_of_comm (fun x y => by cases op <;> cases x <;> cases y <;> rfl)
 
 end ValidaProofs
